@@ -74,7 +74,7 @@ def run(seed, tier, replay=None):
     ms, _knots = G.table_info()
     switches = sorted(set(G.SWITCHES) | set(ms))
     thorough = tier != "quick"
-    n_dists = 380 if not thorough else 3000
+    n_dists = 300 if not thorough else 3000
     n_qs = 10
     n_mono = 80 if not thorough else 500
     worst = dict(inverse=0.0, rel_diff=0.0)
